@@ -2207,6 +2207,7 @@ impl SubRule {
             #[cfg(feature = "verif")] crate::verif::tick(131);
             let back_pos = *pos;
             let back_state = *state_index;
+            let back_caps = captures.len();
             let back_alphas = self.alphas.borrow().clone();
             let back_varlbs = self.variables.borrow().clone();
 
@@ -2224,6 +2225,7 @@ impl SubRule {
             }
             *state_index = back_state;
             *pos = back_pos;
+            captures.truncate(back_caps);
             *self.alphas.borrow_mut() = back_alphas;
             *self.variables.borrow_mut() = back_varlbs;
             pos.increment(word);
